@@ -25,6 +25,8 @@ EXPLANATION += ' RV-FP-HSEM.'
 
 EXPLANATION += ' A64-CFR-BITS, RV-CFR-BITS.'
 
+EXPLANATION += ' PORT-ENDIAN-PAIR.'
+
 
 def run(ctx, R):
     F = astq.Facts(ctx, 'K0')
